@@ -20,7 +20,25 @@ fn run(name: &str, prog: Vec<Instruction>) {
     });
     println!("{name}: {:?}", r.map_err(|_| "PANIC"));
 }
+fn run_cm(name: &str, text: &str, span: (usize, usize), prog: Vec<Instruction>) {
+    let text = text.to_string();
+    let r = std::panic::catch_unwind(move || {
+        let mut cm = CodeMap::new(text);
+        cm.map_instruction(0, aranya_policy_ast::Span::new(span.0, span.1)).unwrap();
+        let mut m = Machine::from_codemap(cm);
+        m.progmem = prog;
+        let mut io = Io;
+        let ctx = CommandContext::Action(ActionContext { name: ident!("a"), head_id: CmdId::default() });
+        let mut rs = m.create_run_state(&mut io, ctx);
+        format!("{:?}", rs.run().map_err(|e| e.to_string()))
+    });
+    println!("{name}: {:?}", r.map_err(|_| "PANIC"));
+}
 fn main() {
+    run_cm("codemap-empty-text", "", (0, 0), vec![Instruction::Pop, Instruction::Add]);
+    run_cm("codemap-span-at-end", "abc", (3, 3), vec![Instruction::Add]);
+    run_cm("codemap-span-ok", "abc", (1, 3), vec![Instruction::Add]);
+    run_cm("codemap-span-oob", "abc", (1, 9), vec![Instruction::Add]);
     let which = std::env::args().nth(1).unwrap_or_default();
     run("next", vec![Instruction::Next]);
     run("last", vec![Instruction::Last]);
